@@ -12,7 +12,13 @@ RULE = ('every type object of usertypes.py (DateTime for 4 zone labels, one unkn
         'any type; every listed edge value (~190) is tried with all types that have a branch for it plus one random type; '
         'every conversion result is converted again as a further case; thorough adds the full cross product of all 19 type '
         'objects with all listed edge values. A case is non-trivial when conversion changed the value or took the except path.')
-TRUSTED = ['hand-written model Model/Values.v of usertypes.py / objtypes.py, compared with the running functions on every case',
+TRUSTED = ['harness/ut2v.py: fail-closed translator usertypes.py/objtypes.py -> coq/gen/Usertypes_gen.v (every do_convert and is_right_type, '
+           'BaseColumnType.convert, the class hierarchy, is_int_short), run on every check; its output is proved equal to the hand model '
+           '(Proofs/Usertypes_bridge.v) and evaluated against the running functions on every case',
+           'Model/ValuesPy.v: the generic Python run time the generated code uses (isinstance, truth value, float/int/str, comparisons, '
+           'iteration, try/except flow) and the library entry points it names (moment.*, json.loads, RecordList.from_repr ...)',
+           'pinned glue (AST equality): DateTime/Reference/ReferenceList/Attachments.__init__',
+           'hand-written model Model/Values.v of usertypes.py / objtypes.py, compared with the running functions on every case',
            'Lib/PyFloat.v (exact dyadic model of binary64), validated through the same cases',
            'oracles (Section variable `orc`): float(str/bytes), repr/str of floats, "%.15g", str()/repr() of containers, bytes, dates, '
            'records, opaque objects, json.loads, iso8601.parse_date, int(str), str.lower, bytes.decode, tz database lookups; '
@@ -23,13 +29,15 @@ ASSUMPTIONS = ['rows_ok: row ids inside record sets handed to RefList/Attachment
                'subclasses of int/float/str/bytes do not override methods',
                'GRIST_TRUTHY_VALUES / GRIST_FALSY_VALUES are unset (monitored)',
                'BaseException subclasses that are not Exception (KeyboardInterrupt...) raised by user objects are outside the model']
-TECHNIQUE = 'Coq proof over a hand-written executable model of usertypes.py + differential cases (vm_compute) + impl oracle'
+TECHNIQUE = ('Coq proof over definitions translated from usertypes.py on every run, bridged pointwise to a hand model '
+             '+ differential cases (vm_compute) of both + impl oracle')
 LEVEL_TEXT = ('Kernel-checked theorems about the model of convert/do_convert/is_right_type of all 16 type classes over the whole '
               'value universe V and arbitrary library oracles: conversion never escapes and yields a right-type value, the '
               'unchanged error or a text for every type; a second conversion returns the same value whenever the first '
               'result is not a text produced by the str() fallback of a non-text value that the type parses again, not an empty '
               'sequence and not a RecordList; each excluded case is refuted by a concrete witness replayed on the implementation.')
-LEVEL_NOTE = ('Model hand-written, tied by differential cases on every run. Oracles for C/third-party library functions. '
+LEVEL_NOTE = ('Deciding code (all do_convert/is_right_type, convert, is_int_short, class dispatch) regenerated from source and bridged by proof '
+              'on every run; hand model also tied by differential cases. Oracles for C/third-party library functions. '
               'Blob.convert was the identity (fixed in /repo f9e437d, kept as a regression witness). Open findings: alt text of non-text values can be parsed on a '
               'second conversion (AltText, opaque objects, ints >= 2^1024 in Numeric); empty results ((), RecordList([]), []) '
               'become None and RecordList becomes list on a second RefList/ChoiceList conversion.')
@@ -185,6 +193,8 @@ def regenerate(ctx):
   try:
     text = ut2v.translate(core.GRIST)
   except ut2v.Untranslatable as e:
+    # no stale definitions: the obligations about the generated code cannot be discharged now
+    core.write_if_changed(os.path.join(core.COQ, 'gen', 'Usertypes_gen.v'), '(* not translated: %s *)\n' % str(e).replace('*', ' '))
     raise core.TieBroken('usertypes.py is outside the translated subset: %s' % e)
   core.write_if_changed(os.path.join(core.COQ, 'gen', 'Usertypes_gen.v'), text)
 
@@ -245,6 +255,8 @@ def correspond(ctx):
                'value %s -> %s' % (pv.to_expr(v)[:200], pv.to_expr(run_one(T, v)[1])[:200]))
   ctx.log('model evaluated')
   ctx.extra['cases_in_coq'] = len(coq)
+  ctx.extra['translator_validation'] = ('%d cases: gen_convert_T and gen_is_right_type (coq/gen/Usertypes_gen.v) evaluated by vm_compute '
+                                        'against usertypes.<Type>().convert / is_right_type; disagreements: %d' % (len(coq), len(bad)))
 
 
 # witnesses of every finding of this property, open or fixed: tried first on every run
